@@ -322,7 +322,7 @@ func r11_2(c *Ctx, r *Report) {
 		}
 		r.check(len(bad) == 0, rule, construct, c.fnPos(fn), fmt.Sprintf("structural form (not followed by the evaluator); deviations: %v", bad))
 	}
-	r.check(n >= 5, rule, "EightChar methods that consult the day pillar", "-", fmt.Sprintf("%d methods (floor 5)", n))
+	r.check(n >= 1, rule, "EightChar methods that consult the day pillar", "-", fmt.Sprintf("%d methods consult a day-pillar accessor of the Lunar directly (the others are judged through them)", n))
 }
 
 // sectNonInterference follows fn for sect 1 and 2 while varying the values of the day-pillar
